@@ -183,7 +183,11 @@ pub fn gen_exec_scenario(id: &str, run_seed: u64) -> Result<Scenario, String> {
         clients,
         schedule,
         scheduler: "uniform".into(),
-        tail: vec![Tail::Encode],
+        tail: match rng.below(6) {
+            0 => vec![Tail::Encode, Tail::Encode],
+            1 => vec![Tail::EmitFail(crate::exec::FailKind::Enospc), Tail::Encode],
+            _ => vec![Tail::Encode],
+        },
         exec: Some(plan),
         info: Some(info),
         walk: None,
@@ -256,7 +260,7 @@ fn target_classes(body: &[Ins], idx: usize) -> String {
         }
     };
     let mut v: Vec<&'static str> = match &body[idx] {
-        Ins::Br(d) | Ins::BrIf(d) => vec![class(*d)],
+        Ins::Br(d) | Ins::BrIf(d) | Ins::BrOnNull(d) | Ins::BrOnNonNull(d) | Ins::BrOnCast(d, ..) | Ins::BrOnCastFail(d, ..) => vec![class(*d)],
         Ins::BrTable(t, d) => {
             let mut v: Vec<&'static str> = t.iter().map(|x| class(*x)).collect();
             v.push(class(*d));
@@ -381,7 +385,14 @@ pub fn judge_exec(id: &str, sc: &Scenario, stats: &mut ExecStats) -> (Judged, Ru
             push("C22", Mismatch::new("bug_log_line", &l.chars().take(50).collect::<String>(), l.clone()), &mut owned, &mut others);
         }
     }
-    let out_bytes = match first_bytes(&res) {
+    // the module a user ends up with: the last encoding (a retried / repeated encode must give a
+    // module with the same behaviour as the first one)
+    let last = res.tails.iter().rev().find_map(|t| match t {
+        crate::exec::TailOutcome::Bytes(b) => Some(b),
+        _ => None,
+    });
+    let _ = first_bytes(&res);
+    let out_bytes = match last {
         Some(b) => b.clone(),
         None => {
             return (Judged { owned, others, harness_error }, res);
@@ -612,6 +623,10 @@ pub fn judge_exec(id: &str, sc: &Scenario, stats: &mut ExecStats) -> (Judged, Ru
                             let kind = match body[*instr as usize] {
                                 Ins::Br(_) => "br",
                                 Ins::BrIf(_) => "br_if",
+                                Ins::BrOnNull(_) => "br_on_null",
+                                Ins::BrOnNonNull(_) => "br_on_non_null",
+                                Ins::BrOnCast(..) => "br_on_cast",
+                                Ins::BrOnCastFail(..) => "br_on_cast_fail",
                                 _ => "br_table",
                             };
                             let tc = target_classes(body, *instr as usize);
@@ -684,6 +699,19 @@ pub fn judge_exec(id: &str, sc: &Scenario, stats: &mut ExecStats) -> (Judged, Ru
                     }
                 }
                 _ => {}
+            }
+        }
+    }
+    // A stale flag (known weakness: the flag of a semantic-after branch probe is not reset when its
+    // body runs) makes the if/else-if chain at a shared target pick the stale body, so another
+    // branch probe resolved at the same end stays silent: same root cause, reported as such.
+    for list in [&mut owned, &mut others] {
+        let stale = list.iter().any(|m| m.kind == "probe_timing" && m.site.ends_with(":refired_after_genuine_firing"));
+        if stale {
+            for m in list.iter_mut() {
+                if m.kind == "probe_timing" && m.site.starts_with("semantic_after:") && m.site.ends_with(":never_fired") && !m.site.contains("func_label") {
+                    m.site = format!("{}(masked_by_stale_flag)", m.site);
+                }
             }
         }
     }
